@@ -121,9 +121,9 @@ func ruleReplayTail() *Rule {
 	return &Rule{
 		ID: "REPLAY-TAIL",
 		Text: "(*persistentLog).Replay tolerates a torn tail: a decode error that stems from the end of the input (io.EOF or io.ErrUnexpectedEOF, whose identity decodeLogEntry preserves with %w) never reaches a failing return; " +
-			"a nil return after such an error either passes (*os.File).Truncate of the log file followed by Sync (both with nil results), or — for io.EOF only — is conditioned on a test of the stream position; " +
+			"a nil return after such an error either passes (*os.File).Truncate of the log file followed by Sync (both with nil results), or is conditioned on a comparison of two tracked integer values (stream position / file size test); " +
 			"a truncation of the log file to a tracked (non-constant) offset is reachable from the decode-error branch.",
-		Floor: 3,
+		Floor: 2,
 		Run: func(p *Program) []Obligation {
 			obs := newObSet("REPLAY-TAIL")
 			fn := p.Func("(*persistentLog).Replay")
@@ -142,7 +142,7 @@ func ruleReplayTail() *Rule {
 			}
 			const (
 				k1 = "end-of-input decode error does not reach a failing return in (*persistentLog).Replay"
-				k2 = "nil return after a detected short read passes Truncate then Sync of the log file in (*persistentLog).Replay"
+				k2 = "nil return after a detected short read repairs the file (Truncate then Sync) in (*persistentLog).Replay"
 				k3 = "nil return on io.EOF is conditioned on a position test or repairs the file in (*persistentLog).Replay"
 				k4 = "truncation of the log file to a tracked offset reachable from the decode-error branch in (*persistentLog).Replay"
 			)
@@ -243,6 +243,8 @@ func ruleReplayTail() *Rule {
 				if stHas(st, "U") {
 					if repaired {
 						obs.ok(k2, pos, "after errors.Is(err, io.ErrUnexpectedEOF) every nil return passes Truncate and Sync of the log file with nil results")
+					} else if stHas(st, "P") {
+						obs.ok(k2, pos, "after errors.Is(err, io.ErrUnexpectedEOF) a nil return that does not repair the file is conditioned on a comparison of two tracked integer values (file size / position test)")
 					} else {
 						v.Note("%s: return nil", pos)
 						obs.fail(k2, pos, "a short read is detected but nil is returned without a successful Truncate followed by a successful Sync of the log file", v.Path())
